@@ -57,6 +57,10 @@ package template
 //@     invariant seqeq(seq(b), lowerupto(s, i))
 //@     decreases len(s) - i
 
+//@ func tagNameChar(c byte) (r bool)
+//@   serves C01 C02 C04 C08
+//@   ensures spec: r == namechar(c)
+
 //@ func eatTagName(s []byte, i int) (r int, e element)
 //@   serves C01 C02 C04 C08
 //@   requires 0 <= i && i <= len(s)
@@ -68,7 +72,7 @@ package template
 //@   loop 1
 //@     invariant i < j && j <= len(s) && alpha(s[i])
 //@     invariant tagrest(s, j) == tagrest(s, i + 1)
-//@     invariant forall(k, i, j, alnum(s[k]) || (namesep(s[k]) && k + 1 < j && alnum(s[k+1])))
+//@     invariant forall(k, i, j, namechar(s[k]) || (namesep(s[k]) && k + 1 < j && namechar(s[k+1])))
 //@     decreases len(s) - j
 
 //@ func errorf(k ErrorCode, node parse.Node, line int, f string, args ...interface{}) (r *Error)
